@@ -2,7 +2,8 @@
 
 MC      MC_Sig0: Sig0.tla on itself -- every small section shape with/without a compression pointer and messages
         with 255 / 256 additional records are built, laid out with a toy signature, located again (View), every
-        layout fault is named, no proper prefix is accepted
+        layout fault is named, no proper prefix is accepted; names compare as domain names (KELVIN SIGN is no k, "{" no "[");
+        VerifyOn: the SIG value Verify is called on does not enter the verdict
 TV      one pipeline per shard, two trace-validation passes around the harness:
           sig0 record   seeded random messages (all section shapes, Compress on/off, ARCOUNT 0..3 and 255/256/257,
                         37 octets .. ~8 kB, four signer names; windows: wide, tight, expired, not yet valid and three
@@ -30,6 +31,17 @@ TV      one pipeline per shard, two trace-validation passes around the harness:
                         is tried before / after the signer's own KEY, alternating per (signer, key): it never verifies.
                         A small message is signed with committed 4096-bit (algorithms 5, 8, 10) and 512-bit (5, 8) keys.
                         Every fourth random message is signed with a SIG value that has signed another message before.
+                        Every fourth random message (i % 4 = 2) is signed with a SIG value that arrives with MORE than the five fields
+                        Sign reads: an owner name ("owner"), a whole RR header with the signer's name, class IN, a TTL ("header"),
+                        type covered / labels / original TTL ("rdata-fields"), all of it with a long owner ("all") -- the result is
+                        the specification's all the same (event field `preset', key suffix :preset-sig-struct).
+                        Verify on a SIG value that is NOT the record in the message (variants struct-window-<k>, called directly):
+                        the signing template after it has signed a later message with another window -- one whose own window holds,
+                        one whose window is expired / not yet valid / inverted (in turn) -- on every real and built message of every
+                        window kind: the verdict is VerifyOn(rr, octets, ...) = that of the octets (key suffix :other-sig-struct).
+                        KEY owners that only another notion of letter case takes for the signer (five signer names, each with an s or
+                        a k, one with [ ] ^): U+017F for s, U+212A for k (raw UTF-8 in the Go string, also on the case-swapped name),
+                        a non-letter moved by 0x20: other domain names, never accepted (sig0/verify-accepts-invalid:signer).
         Quick = three parallel pipelines: the ten fixed messages; 2 x 16 random messages.
         Times: no assertion closer than 90 s to a window edge; the pipeline dies (exit 2) if it takes > 600 s.
 
@@ -40,6 +52,17 @@ Mutants (checks/mutants/C18), stage that catches each on the quick tier:
                                    in pass 2 (the independently built message rejected)
   signer-case-sensitive.diff       pass 2 (sig0/verify-rejects-valid, owner-case variant)
   bounds-check-loosened.diff       finish (4) (sig0/verify-panics:truncated)
+  window-from-sig-struct.diff      (seed C18-16: the window is read from the SIG value, not from the octets) pass 2
+                                   sig0/verify-accepts-invalid:{expired,not-yet-valid,inverted-window}:other-sig-struct and
+                                   sig0/verify-rejects-valid:other-sig-struct (struct-window variants)
+  signer-equalfold.diff            (seed C18-17: strings.EqualFold on signer / KEY owner) pass 2 sig0/verify-accepts-invalid:signer
+                                   (owner-unicode-fold-s / -k variants)
+  signer-xor20-overfold.diff       (any two octets 0x20 apart, >= 'a' after folding, taken for one letter) pass 2
+                                   sig0/verify-accepts-invalid:signer (owner-xor20-nonletter, signer Sig[0]^k.example.)
+  sign-keeps-owner.diff            (seed C18-18: Sign keeps a preset owner name, offsets assume the root) pass 1
+                                   sig0/sign-layout:rr-header:preset-sig-struct
+  sign-keeps-rdata-fields.diff     (Sign does not reset type covered / labels / original TTL) pass 1
+                                   sig0/sign-layout:rdata:preset-sig-struct
 """
 import os, json
 import vp
@@ -60,7 +83,7 @@ def absorb_pass(ctx, tr, events, shard):
             e = events[i - 1]
             if k.startswith("trace/"):
                 raise vp.Infra("event the trace spec cannot read: %s (event id %s)" % (k, e.get("id")))
-            brief = {f: e[f] for f in ("ev", "id", "variant", "compress", "algname", "window", "ok", "err", "errclass", "accepted", "sigvalid") if f in e}
+            brief = {f: e[f] for f in ("ev", "id", "variant", "compress", "algname", "window", "reused", "preset", "rr", "ok", "err", "errclass", "accepted", "sigvalid") if f in e}
             brief["msglen"] = len(e.get("msg") or e.get("buf") or [])
             ctx.candidate(k, "recorded %s event rejected by the specification" % e["ev"], dict(shard, id=e["id"], event=brief))
 
@@ -113,6 +136,8 @@ def run(ctx):
         "bit flips in the SIG RR's own owner/type/class/TTL/RDLENGTH are only required not to panic (AMBIG: neither message nor SIG RDATA)",
         "whether the signer name keeps its case in the SIG RDATA is AMBIG: both spellings are admitted; a compressed signer name is not refused",
         "messages whose signed form would exceed 65535 octets are outside the universe",
+        "AMBIG: the SIG value Verify is called on supplies the algorithm (the hash to apply) in the library; the values used carry the algorithm, "
+        "key tag and signer of the message and differ from it in the validity window, the header fields and the signature",
     ]
     return ctx.finish(rule="events: seeded random messages x algorithms; per message one sign event, 6-12 verify events (right/wrong key, "
                       "owner variants, both the real and the independently built signed message), every bit flip and every truncation of the "
